@@ -23,7 +23,7 @@ TECHNIQUE = 'exhaustive microsecond sweep + exact-rational oracle on adversarial
 RULE = ('(a) all 10^6 microseconds x seconds values; (d) boundary-adjacent fractions; non-trivial = value whose sub-second part is non-zero; '
         'distinct = (part, seconds value, block) / (resolution, fraction class)')
 ASSUMPTIONS = ['datetime64 conversions are specified to truncate (within one unit), not to round']
-REQUIRED = ['roundtrip_scalar_ns', 'writer_roundtrip_other_units', 'raw_rewritten', 'derived_array_conversions', 'time_track_exact_points', 'raw_scalar_paths', 'roundtrip_scalar', 'roundtrip_array', 'writer_roundtrip_values', 'raw_pairs_bit_exact', 'conversions_checked', 'monotone_pairs',
+REQUIRED = ['caller_built_timestamp_arrays_written', 'roundtrip_scalar_ns', 'writer_roundtrip_other_units', 'raw_rewritten', 'derived_array_conversions', 'time_track_exact_points', 'raw_scalar_paths', 'roundtrip_scalar', 'roundtrip_array', 'writer_roundtrip_values', 'raw_pairs_bit_exact', 'conversions_checked', 'monotone_pairs',
             'scalar_vs_array', 'time_tracks', 'defragment_raw']
 EXHAUSTIVE = {'quick': False, 'thorough': False}
 SECONDS = {
@@ -229,6 +229,32 @@ def raw_rt(case, ctx):
         p = tf['g']['ts'].properties['stamp']
         if (int(p.seconds), int(p.second_fractions)) != prop:
             ctx.violation('raw-pairs/defragment-property', {'got': repr(p), 'want': prop})
+    # write TimestampArray objects built by the caller: both field orders, both byte orders, and via TimeStamp.from_bytes
+    from nptdms.timestamp import TimestampArray
+    from nptdms.types import TimeStamp
+    wl0 = [(int(s_), int(f_)) for s_, f_ in pairs]
+    built = {}
+    for bo in '<>':
+        for names in (('seconds', 'second_fractions'), ('second_fractions', 'seconds')):
+            a_ = np.zeros(len(pairs), dtype=[(nm, bo + ('i8' if nm == 'seconds' else 'u8')) for nm in names])
+            a_['seconds'] = [p_[0] for p_ in pairs]
+            a_['second_fractions'] = [p_[1] for p_ in pairs]
+            built['%s/%s-first' % ('big-endian' if bo == '>' else 'little-endian', names[0])] = TimestampArray(a_)
+    be_bytes = b''.join(struct.pack('>qQ', s_, f_) for s_, f_ in pairs)
+    built['from_bytes/big-endian'] = TimeStamp.from_bytes(np.frombuffer(be_bytes, dtype='u1'), '>')
+    le_bytes = b''.join(struct.pack('<Qq', f_, s_) for s_, f_ in pairs)
+    built['from_bytes/little-endian'] = TimeStamp.from_bytes(np.frombuffer(le_bytes, dtype='u1'), '<')
+    for kind_, arr_ in built.items():
+        try:
+            out = io.BytesIO()
+            with TdmsWriter(out) as w:
+                w.write_segment([ChannelObject('g', 'ts', arr_)])
+            back = TdmsFile.read(io.BytesIO(out.getvalue()), raw_timestamps=True)['g']['ts'][:]
+            ctx.count('caller_built_timestamp_arrays_written')
+            if C.image(back) != ('ts', wl0):
+                ctx.violation('raw-pairs/write-of-caller-built-array/%s' % kind_, {'got': C.short(C.image(back)), 'want': wl0[:4]})
+        except Exception as ex:
+            ctx.violation('raw-pairs/write-of-caller-built-array-raises/%s/%s' % (kind_, util.exc_key(ex)), {'exc': util.exc_detail(ex)})
     # write raw TdmsTimestamp objects
     buf = io.BytesIO()
     with TdmsWriter(buf) as w:
